@@ -51,8 +51,103 @@ def _inline_all(node, env, depth=10):
     return _PssPattern().visit(node)
 
 
+_GENERIC_D = 5
+_GENERIC_PSS = 2 ** _GENERIC_D - 1
+
+
+def _closure_ast(v, depth=0):
+    """Syntax of a function value captured by the interpreter, with everything its closure binds to other function
+    values / numbers substituted (beta-reduction is left to _inline_all)."""
+    from .absint import Closure, PyFunc
+    if depth > 6:
+        raise ValueError("closure nesting")
+    if v is None:
+        return None
+    if isinstance(v, PyFunc):
+        name = v.name.split(".")[-1]
+        if name in ("xor", "or_", "and_"):
+            return ast.Attribute(value=ast.Name(id="operator", ctx=ast.Load()), attr=name, ctx=ast.Load())
+        if name in ("abs", "neg", "pos"):
+            return ast.Name(id="abs", ctx=ast.Load()) if name == "abs" else \
+                ast.Attribute(value=ast.Name(id="operator", ctx=ast.Load()), attr=name, ctx=ast.Load())
+        raise ValueError(f"library function {v.name}")
+    if not isinstance(v, Closure):
+        raise ValueError(f"not a function value: {v!r}")
+    node = v.node
+    if isinstance(node, ast.FunctionDef):
+        inner = [b for b in node.body if not (isinstance(b, ast.Expr) and isinstance(b.value, ast.Constant))]
+        if len(inner) != 1 or not isinstance(inner[0], ast.Return) or inner[0].value is None:
+            raise ValueError("function-valued argument is not a single return")
+        node = ast.Lambda(args=node.args, body=inner[0].value)
+    own = {a.arg for a in node.args.args}
+    env = {}
+    free = {n.id for n in ast.walk(node.body) if isinstance(n, ast.Name) and isinstance(n.ctx, ast.Load)} - own
+    for name in free:
+        try:
+            val = v.env[name] if name in v.env else None
+        except Exception:
+            val = None
+        if isinstance(val, (Closure, PyFunc)):
+            env[name] = _closure_ast(val, depth + 1)
+        elif isinstance(val, int) and not isinstance(val, bool) and val == _GENERIC_PSS:
+            env[name] = ast.Name(id="P", ctx=ast.Load())        # the pseudoscalar key of the generic algebra: symbolic
+        elif isinstance(val, (int, float)) and not isinstance(val, bool):
+            env[name] = ast.Constant(value=val)
+    lam = ast.Lambda(args=node.args, body=_inline_all(clone(node.body), env))
+    return ast.fix_missing_locations(lam)
+
+
+def resolve_product_interp(repo, fname: str) -> Triple:
+    """The same triple, obtained by RUNNING the wrapper chain in the interpreter on generic operands with
+    codegen_product replaced by a recorder: whatever local variables, branches or helpers the wrappers use, what
+    reaches codegen_product on the generic path is what counts."""
+    from .absint import PyFunc
+    from .symenv import make_interp, rep_algebra, mv_obj
+    alg = rep_algebra(_GENERIC_D)
+    n = 2 ** _GENERIC_D
+    x = mv_obj(alg, tuple(range(n)), [Obj("token", {"fmt": f"a{k}", "name": f"a{k}"}) for k in range(n)])
+    y = mv_obj(alg, tuple(range(n)), [Obj("token", {"fmt": f"b{k}", "name": f"b{k}"}) for k in range(n)])
+    seen = {}
+
+    def recorder(a, b, filter_func=None, sign_func=None, keyout_func=None, **kw):
+        seen.update(x=a, y=b, filter=filter_func, sign=sign_func, keyout=keyout_func, extra=kw)
+        return {}
+    it = make_interp(repo)
+    it.algebra = alg
+    callee = repo.func("codegen.codegen_product")
+    it.overrides["codegen.codegen_product"] = PyFunc(recorder, "codegen_product", True)
+    out = it.run(f"codegen.{fname}", [x, y])
+    if out[0] == "raise" or "x" not in seen:
+        raise ValueError(f"generic operands do not reach codegen_product ({out!r})")
+    t = Triple()
+    t.chain, t.node = [fname, "...", "codegen_product"], repo.func(f"codegen.{fname}")
+    t.operands = tuple(0 if o is x else 1 if o is y else "?" for o in (seen["x"], seen["y"]))
+    for attr in ("filter", "sign", "keyout"):
+        v = seen[attr]
+        if v is None:
+            d = default_of(callee, f"{attr}_func")
+            v_ast = None if d is None or (isinstance(d, ast.Constant) and d.value is None) else d
+        else:
+            v_ast = _closure_ast(v)
+        setattr(t, attr, v_ast)
+    return t
+
+
 def resolve_product(repo, fname: str, bindings: Optional[Dict[str, ast.AST]] = None, chain=None) -> Triple:
-    """Follow `return codegen_X(x, y, kw=...)` wrappers down to codegen_product."""
+    """Follow `return codegen_X(x, y, kw=...)` wrappers down to codegen_product (syntactically; when a wrapper is not a
+    straight-line forwarding call, by running the chain on generic operands)."""
+    if not chain and not bindings:
+        try:
+            return _resolve_product_syntactic(repo, fname, None, None)
+        except Unknown as exc:
+            try:
+                return resolve_product_interp(repo, fname)
+            except Exception:
+                raise exc
+    return _resolve_product_syntactic(repo, fname, bindings, chain)
+
+
+def _resolve_product_syntactic(repo, fname: str, bindings: Optional[Dict[str, ast.AST]] = None, chain=None) -> Triple:
     chain = (chain or []) + [fname]
     if len(chain) > 6:
         raise Unknown(f"codegen.{fname}", "wrapper chain too deep")
@@ -116,7 +211,7 @@ def resolve_product(repo, fname: str, bindings: Optional[Dict[str, ast.AST]] = N
     for p in cps[2:]:
         if p in passed:
             new_bind[p] = _inline_all(passed[p], penv)
-    t = resolve_product(repo, target, new_bind, chain)
+    t = _resolve_product_syntactic(repo, target, new_bind, chain)
     # compose operand positions
     mine = tuple(ps[:2].index(o) if o in ps[:2] else o for o in operands)
     t.operands = tuple(mine[i] if isinstance(i, int) and i < len(mine) else i for i in t.operands)
